@@ -430,20 +430,25 @@ func rulesC02(w *World, r *Report) {
 			if !ok {
 				continue
 			}
-			lc, isCall := bo.X.(*ssa.Call)
-			k, isK := constInt(bo.Y)
-			if !isCall || !isK {
-				continue
-			}
-			if bi, ok := lc.Common().Value.(*ssa.Builtin); !ok || bi.Name() != "len" || lc.Common().Args[0] != arg {
+			// len(arg) compared with a constant, in either orientation
+			op, _, kv, okC := orientCmp(bo, func(v ssa.Value) bool {
+				lc, isCall := v.(*ssa.Call)
+				if !isCall {
+					return false
+				}
+				bi, ok := lc.Common().Value.(*ssa.Builtin)
+				return ok && bi.Name() == "len" && lc.Common().Args[0] == arg
+			})
+			k, isK := constInt(kv)
+			if !okC || !isK {
 				continue
 			}
 			// which edge means "non-empty"?
 			var nonEmpty *ssa.BasicBlock
 			switch {
-			case bo.Op == token.EQL && k == 0, bo.Op == token.LSS && k == 1, bo.Op == token.LEQ && k == 0:
+			case op == token.EQL && k == 0, op == token.LSS && k == 1, op == token.LEQ && k == 0:
 				nonEmpty = b.Succs[1]
-			case bo.Op == token.NEQ && k == 0, bo.Op == token.GTR && k == 0, bo.Op == token.GEQ && k == 1:
+			case op == token.NEQ && k == 0, op == token.GTR && k == 0, op == token.GEQ && k == 1:
 				nonEmpty = b.Succs[0]
 			}
 			if nonEmpty != nil && edgeDominates(b, nonEmpty, c.Block()) {
@@ -542,7 +547,7 @@ func rulesC02(w *World, r *Report) {
 		r.Rule("C02.R6", "every touched coarser slot is recomputed: the slot write in propagate is guarded by nothing but the non-empty test on the known values and the xFilesFactor gate", 1)
 		var extra []string
 		for _, g := range blockGuards(w, putCall.Block()) {
-			if (strings.Contains(g, "XFilesFactor(") || strings.Contains(g, ".xFilesFactor")) || regexp.MustCompile(`^!?\(len\(whispertool\.filterValidValues\(.*\)\) (==|!=|>|<) [01]\)$`).MatchString(g) || regexp.MustCompile(`^!\(len\(p2\) == 0\)$`).MatchString(g) {
+			if (strings.Contains(g, "XFilesFactor(") || strings.Contains(g, ".xFilesFactor")) || isLenEmptinessTest(g, `whispertool\.filterValidValues\(.*\)`) || isLenEmptinessTest(g, `p2`) {
 				continue
 			}
 			extra = append(extra, g)
@@ -780,6 +785,9 @@ func rulesC03(w *World, r *Report) {
 	// findBestArchive receives t itself (single update) and the unclamped from (fetch): C03.R4 / C04.R4
 	r.Rule("C03.R4", "derives-from: findBestArchive receives the point's own timestamp; each archive is written with result #0 of extractPoints applied to what the previous archive left (result #1), the loop index as archive id and the same now", 4)
 	fba := fn(w.Lib, "Whisper.findBestArchive")
+	if len(callsTo(up1, fba)) == 0 {
+		r.Violate("C03.R4", "UpdatePointForArchive:best-archive-arg", w.pos(up1.Pos()), "UpdatePointForArchive does not choose the archive with findBestArchive (retention >= age): a single update whose age equals an archive's retention is routed by another rule")
+	}
 	for _, c := range callsTo(up1, fba) {
 		ex := newExprCtx(w)
 		a1 := ex.expr(c.Common().Args[1])
@@ -1007,4 +1015,10 @@ func splitIndex(e *ddEngine, l ddLeaf, pts ssa.Value, n int) (int, bool) {
 		return int(k), k == 0 && ok && ln == 0
 	}
 	return 0, false
+}
+
+// isLenEmptinessTest: guard g (canonical rendering, possibly negated) only asks whether len(<what>) is zero.
+func isLenEmptinessTest(g, what string) bool {
+	l := `len\(` + what + `\)`
+	return regexp.MustCompile(`^!?\((0 (==|!=|<) ` + l + `|` + l + ` (<=) 0|` + l + ` (<) 1|1 (<=) ` + l + `)\)$`).MatchString(g)
 }
